@@ -56,25 +56,31 @@ def emit_order(out, name, events, doc):
     out.write("\n].\n\n")
 
 
-def gen_calls(repo, out):
-    cli = parse_file(repo, "cli.py")
-    emit_order(out, "ORDER_CLI_UPDATE",
-               order_of(cli, "update", ["_validate_release_tag", "_validate_date", "config.init", "_parse_vcs_options", "_update_cfg_from_vcs", "incr_dispatch",
-                                        "_is_valid_version", "_print_diff", "commit_msg_template.format", "tag_msg_template.format", "_try_update"]),
-               "cli.update: order of the steps (calls and the dry return)")
-    emit_order(out, "ORDER_CLI__UPDATE",
-               order_of(cli, "_update", ["vcs.get_vcs_api", "vcs.assert_not_dirty", "v2rewrite.rewrite_files", "v1rewrite.rewrite_files", "vcs.commit"]),
-               "cli._update: dirty check, rewrite, commit")
-    emit_order(out, "ORDER_CLI_TEST",
-               order_of(cli, "test", ["_validate_release_tag", "_validate_flags", "_validate_date", "incr_dispatch", "_is_valid_version", "version.to_pep440", "click.echo"]),
-               "cli.test: validation, increment, gate, output")
-    vcs = parse_file(repo, "vcs.py")
-    emit_order(out, "ORDER_VCS_COMMIT",
-               order_of(vcs, "commit", ["hooks.run", "vcs_api.add", "vcs_api.commit", "vcs_api.tag", "vcs_api.push_tag", "vcs_api.push"]),
-               "vcs.commit: pre hook, add, commit, post hook, tag, push")
-    emit_order(out, "ORDER_VCS_ASSERT_NOT_DIRTY", order_of(vcs, "assert_not_dirty", ["vcs_api.status", "sys.exit"]), "vcs.assert_not_dirty")
-    init = order_of(cli, "init", ["config.init", "sys.exit", "config.default_config", "config.write_content"])
-    emit_order(out, "ORDER_CLI_INIT", init, "cli.init: refuse, dry, write")
+SPECS = [
+    ("order_cli_update", "cli.py", "update", "ORDER_CLI_UPDATE",
+     ["_validate_release_tag", "_validate_date", "config.init", "_parse_vcs_options", "_update_cfg_from_vcs", "incr_dispatch",
+      "_is_valid_version", "_print_diff", "commit_msg_template.format", "tag_msg_template.format", "_try_update"],
+     "cli.update: order of the steps (calls and the dry return)"),
+    ("order_cli__update", "cli.py", "_update", "ORDER_CLI__UPDATE",
+     ["vcs.get_vcs_api", "vcs.assert_not_dirty", "v2rewrite.rewrite_files", "v1rewrite.rewrite_files", "vcs.commit"],
+     "cli._update: dirty check, rewrite, commit"),
+    ("order_cli_test", "cli.py", "test", "ORDER_CLI_TEST",
+     ["_validate_release_tag", "_validate_flags", "_validate_date", "incr_dispatch", "_is_valid_version", "version.to_pep440", "click.echo"],
+     "cli.test: validation, increment, gate, output"),
+    ("order_vcs_commit", "vcs.py", "commit", "ORDER_VCS_COMMIT",
+     ["hooks.run", "vcs_api.add", "vcs_api.commit", "vcs_api.tag", "vcs_api.push_tag", "vcs_api.push"],
+     "vcs.commit: pre hook, add, commit, post hook, tag, push"),
+    ("order_vcs_assert_not_dirty", "vcs.py", "assert_not_dirty", "ORDER_VCS_ASSERT_NOT_DIRTY", ["vcs_api.status", "sys.exit"], "vcs.assert_not_dirty"),
+    ("order_cli_init", "cli.py", "init", "ORDER_CLI_INIT", ["config.init", "sys.exit", "config.default_config", "config.write_content"],
+     "cli.init: refuse, dry, write"),
+]
 
 
-EXTRA_GENERATORS.append(gen_calls)
+def make_gen(rel, fname, coqname, interesting, doc):
+    def gen(repo, out):
+        emit_order(out, coqname, order_of(parse_file(repo, rel), fname, interesting), doc)
+    return gen
+
+
+for _sec, _rel, _fname, _coqname, _interesting, _doc in SPECS:
+    EXTRA_GENERATORS.append((_sec, make_gen(_rel, _fname, _coqname, _interesting, _doc)))
